@@ -225,11 +225,11 @@ with alpha_s : ctx -> pstmt -> pstmt -> ctx -> Prop :=
                          end) imps imps' ->
     alpha_s G (PFromUse path imps file sp) (PFromUse path' imps' file sp) G
 | as_blob G nm nm' vars fields fields' ext sp :
-    ctx_var G (i_name nm) (i_name nm') = true ->
+    id_ref G nm nm' ->
     Forall2 (fun f f' => fst f = fst f' /\ alpha_ty G (snd f) (snd f')) fields fields' ->
     alpha_s G (PBlobDef nm vars fields ext sp) (PBlobDef nm' vars fields' ext sp) G
 | as_enum G nm nm' vars variants variants' sp :
-    ctx_var G (i_name nm) (i_name nm') = true ->
+    id_ref G nm nm' ->
     Forall2 (fun f f' => fst f = fst f' /\ alpha_ty G (snd f) (snd f')) variants variants' ->
     alpha_s G (PEnumDef nm vars variants sp) (PEnumDef nm' vars variants' sp) G
 | as_extdef G i i' k t t' sp :
